@@ -1,0 +1,21 @@
+//go:build verif
+
+// Contracts for package funcs (comment-only; read by /verif/govc).
+
+package funcs
+
+// Every Function value is built by NewFunctionStack from the table of known
+// callbacks, so its call field is set.
+//@ type Function invariant [callable] !isnil(self.call)
+
+//@ func NewFunctionStack
+//@   assigns nothing
+//@ func NewFunctionStack$1
+//@   assigns nothing
+//@   ensures [callback] implies(isnil(result1), !isnil(result0))
+//@ func (FunctionStack).Call
+//@   assigns nothing
+//@ func MaskDigits
+//@   assigns nothing
+//@ func Md5Sum
+//@   assigns nothing
